@@ -37,11 +37,25 @@ type verifWorld struct {
 
 var vw *verifWorld
 
-const (
-	verifInputBytes  = "INPUT-BYTES"
-	verifOldOutBytes = "OLD-OUTPUT"
-	verifNewBytes    = "NEW-COMPLETE-OUTPUT"
+// File contents and permission bits are solver variables: every comparison of a file with its expected
+// content / mode below is an SMT query over all values at once (the fixed prefixes only make the three
+// contents differ in length, so that a partial write can never equal a complete content).
+var (
+	verifInputBytes  string
+	verifOldOutBytes string
+	verifNewBytes    string
+	verifInMode      os.FileMode
+	verifOutMode     os.FileMode
 )
+
+func verifDrawWorld() {
+	verifInputBytes = "INPUT-BYTE" + vp.String(1)
+	verifOldOutBytes = "OLD-OUTPU" + vp.String(1)
+	verifNewBytes = "NEW-COMPLETE-OUTPU" + vp.String(1)
+	// any permission bits that keep the files readable and writable for their owner
+	verifInMode = os.FileMode(vp.IntIn(0, 0o777)) | 0o600
+	verifOutMode = os.FileMode(vp.IntIn(0, 0o777)) | 0o600
+}
 
 var errVerifInjected = errors.New("injected I/O error")
 
@@ -143,16 +157,19 @@ func verifIsStagingName(name string) bool {
 //	scenario 0: in place (outFile == "")          3: existing distinct output (mode 0640)
 //	scenario 1: outFile is the same string         4: outFile spells the input differently (dir/./in.pdf)
 //	scenario 2: new output (absent)                5: outFile is a hard link to the input
+//	scenario 6: outFile is a symbolic link to an existing distinct output (mode 0640)
+//	scenario 7: outFile is a symbolic link to the input
 func verifSetup(maxCalls int) *verifWorld {
 	w := &verifWorld{}
 	vw = w
+	verifDrawWorld()
 	dir, err := os.MkdirTemp("", "verifc01")
 	verifMust(err)
 	w.dir = dir
 	w.inFile = dir + "/in.pdf"
 	verifMust(os.WriteFile(w.inFile, []byte(verifInputBytes), 0o600))
-	verifMust(os.Chmod(w.inFile, 0o604))
-	switch vp.Choice(6) {
+	verifMust(os.Chmod(w.inFile, verifInMode))
+	switch vp.Choice(8) {
 	case 0:
 		w.outFile, w.dest, w.destExists = "", w.inFile, true
 	case 1:
@@ -163,7 +180,7 @@ func verifSetup(maxCalls int) *verifWorld {
 	case 3:
 		w.outFile = dir + "/out.pdf"
 		verifMust(os.WriteFile(w.outFile, []byte(verifOldOutBytes), 0o600))
-		verifMust(os.Chmod(w.outFile, 0o640))
+		verifMust(os.Chmod(w.outFile, verifOutMode))
 		w.dest, w.destExists, w.outDistinct = w.outFile, true, true
 	case 4:
 		w.outFile = dir + "/./in.pdf"
@@ -172,14 +189,25 @@ func verifSetup(maxCalls int) *verifWorld {
 		w.outFile = dir + "/link.pdf"
 		verifMust(os.Link(w.inFile, w.outFile))
 		w.dest, w.destExists = w.outFile, true
+	case 6:
+		real := dir + "/real-out.pdf"
+		verifMust(os.WriteFile(real, []byte(verifOldOutBytes), 0o600))
+		verifMust(os.Chmod(real, verifOutMode))
+		w.outFile = dir + "/sym-out.pdf"
+		verifMust(os.Symlink(real, w.outFile))
+		w.dest, w.destExists, w.outDistinct = w.outFile, true, true
+	case 7:
+		w.outFile = dir + "/sym-in.pdf"
+		verifMust(os.Symlink(w.inFile, w.outFile))
+		w.dest, w.destExists = w.outFile, true
 	}
 	w.initial = verifListing(dir)
 	// fault plan: at most one injected event (the property's "every single injected fault point")
 	switch vp.Choice(4) {
 	case 1:
-		w.failAt = vp.IntRange(1, maxCalls)
+		w.failAt = vp.IntIn(1, maxCalls) // which call fails is a solver variable
 	case 2:
-		w.crashAt = vp.IntRange(1, maxCalls)
+		w.crashAt = vp.IntIn(1, maxCalls) // the kill point is a solver variable
 	case 3:
 		w.outcome = vp.IntRange(1, 2) // processing error / panic
 	}
@@ -188,9 +216,9 @@ func verifSetup(maxCalls int) *verifWorld {
 
 func verifDestMode(w *verifWorld) os.FileMode {
 	if w.outDistinct {
-		return 0o640
+		return verifOutMode
 	}
-	return 0o604
+	return verifInMode
 }
 
 func verifDestOld(w *verifWorld) string {
@@ -220,7 +248,7 @@ func verifCrashInvariant() {
 		}
 	}
 	if w.outDistinct {
-		vp.Assert(verifFileIs(w.inFile, verifInputBytes, 0o604), "crash: the input file was modified")
+		vp.Assert(verifFileIs(w.inFile, verifInputBytes, verifInMode), "crash: the input file was modified")
 	}
 }
 
@@ -228,7 +256,7 @@ func verifCrashInvariant() {
 func verifPostState(err error) {
 	w := vw
 	if err != nil || w.panicked {
-		vp.Assert(verifFileIs(w.inFile, verifInputBytes, 0o604), "failed operation modified the input file")
+		vp.Assert(verifFileIs(w.inFile, verifInputBytes, verifInMode), "failed operation modified the input file")
 		if w.destExists {
 			vp.Assert(verifFileIs(w.dest, verifDestOld(w), verifDestMode(w)), "failed operation modified a pre-existing output file")
 		} else {
@@ -250,7 +278,7 @@ func verifPostState(err error) {
 		vp.Assert(rerr == nil && string(b) == verifNewBytes, "new destination does not hold the complete output")
 	}
 	if w.outDistinct {
-		vp.Assert(verifFileIs(w.inFile, verifInputBytes, 0o604), "successful operation modified a distinct input file")
+		vp.Assert(verifFileIs(w.inFile, verifInputBytes, verifInMode), "successful operation modified a distinct input file")
 	}
 	want := len(w.initial)
 	if !w.destExists {
@@ -334,26 +362,27 @@ func verifStubMergeCreateZip(rs1, rs2 io.ReadSeeker, w io.Writer, conf *model.Co
 func verifSetupMerge(maxCalls int) *verifWorld {
 	w := &verifWorld{}
 	vw = w
+	verifDrawWorld()
 	dir, err := os.MkdirTemp("", "verifc01")
 	verifMust(err)
 	w.dir = dir
 	w.inFile = dir + "/in.pdf"
 	verifMust(os.WriteFile(w.inFile, []byte(verifInputBytes), 0o600))
-	verifMust(os.Chmod(w.inFile, 0o604))
+	verifMust(os.Chmod(w.inFile, verifInMode))
 	verifMust(os.WriteFile(dir+"/in2.pdf", []byte(verifInputBytes), 0o600))
 	w.outFile = dir + "/out.pdf"
 	w.dest, w.outDistinct = w.outFile, true
 	if vp.Choice(2) == 1 {
 		verifMust(os.WriteFile(w.outFile, []byte(verifOldOutBytes), 0o600))
-		verifMust(os.Chmod(w.outFile, 0o640))
+		verifMust(os.Chmod(w.outFile, verifOutMode))
 		w.destExists = true
 	}
 	w.initial = verifListing(dir)
 	switch vp.Choice(4) {
 	case 1:
-		w.failAt = vp.IntRange(1, maxCalls)
+		w.failAt = vp.IntIn(1, maxCalls) // which call fails is a solver variable
 	case 2:
-		w.crashAt = vp.IntRange(1, maxCalls)
+		w.crashAt = vp.IntIn(1, maxCalls) // the kill point is a solver variable
 	case 3:
 		w.outcome = vp.IntRange(1, 2)
 	}
